@@ -4,6 +4,8 @@ namespace RimeModel.C14
 
 def NoSlash (k : Str) : Prop := ∀ c ∈ k, c ≠ c_slash
 
+instance (k : Str) : Decidable (NoSlash k) := inferInstanceAs (Decidable (∀ c ∈ k, c ≠ c_slash))
+
 theorem trimLeft_noSlash {k : Str} (h : NoSlash k) : Str.trimLeft c_slash k = k := by
   cases k with
   | nil => rfl
@@ -140,6 +142,92 @@ theorem stripOperator_equ {k : Str} (h : PlainKey k) : stripOperator (k ++ kEquO
   have n2 := add_ne_merge k 61
   simp_all [stripOperator, kEquOp, c_slash]
 
+
+/-! ### maps, flat merges -/
+theorem mapGet_mapSet_same (kvs : Entries) (k : Str) (v : Tree) : mapGet (mapSet kvs k v) k = v := by
+  induction kvs with
+  | nil => simp [mapSet, mapGet]
+  | cons kv rest ih =>
+    obtain ⟨k0, x⟩ := kv
+    unfold mapSet
+    by_cases h : k0 = k
+    · simp [h, mapGet]
+    · by_cases h2 : strLt k k0 = true
+      · simp [h, h2, mapGet]
+      · simp [h, h2, mapGet, ih]
+
+theorem mapSet_mapSet_same (kvs : Entries) (k : Str) (a b : Tree) :
+    mapSet (mapSet kvs k a) k b = mapSet kvs k b := by
+  induction kvs with
+  | nil => simp [mapSet]
+  | cons kv rest ih =>
+    obtain ⟨k0, x⟩ := kv
+    by_cases h : k0 = k
+    · simp [mapSet, h]
+    · by_cases h2 : strLt k k0 = true
+      · simp [mapSet, h, h2]
+      · simp [mapSet, h, h2, ih]
+
+/-- entries a flat merge carries: plain keys, values that are neither null nor maps -/
+def Flat (m : Entries) : Prop := ∀ kv ∈ m, PlainKey kv.1 ∧ kv.2.isNull = false ∧ kv.2.isMap = false
+
+def setAll (kvs : Entries) (m : Entries) : Entries := m.foldl (fun a kv => mapSet a kv.1 kv.2) kvs
+
+theorem isMerging_plain_flat {k : Str} (h : PlainKey k) {v : Tree} (h1 : v.isNull = false) (h2 : v.isMap = false) :
+    isMerging k v true = false := by
+  have e : Str.endsWith k [47, 43] = false := endsWith_noSlash (q := [43]) h.ns
+  simp [isMerging, h.nm, kAddOp, e, h1, h2]
+
+theorem editNode_set_mt {k : Str} (h : PlainKey k) (kvs : Entries) {v : Tree} (h1 : v.isNull = false)
+    (h2 : v.isMap = false) :
+    editNode (.map kvs) [] k v true = ER.good (.map (mapSet kvs k v)) [] := by
+  unfold editNode
+  simp [isAppending_plain h, isMerging_plain_flat h h1 h2, stripOperator_plain h, typeChecked_plain h, assign, setC_one_map h]
+
+theorem mergeEntries_flat (m : Entries) (hm : Flat m) (kvs : Entries) :
+    mergeEntries (.map kvs) [] m = ER.good (.map (setAll kvs m)) [] := by
+  induction m generalizing kvs with
+  | nil => simp [mergeEntries, setAll]
+  | cons kv rest ih =>
+    obtain ⟨k, v⟩ := kv
+    have hk := hm (k, v) (by simp)
+    have hr : Flat rest := fun x hx => hm x (by simp [hx])
+    unfold mergeEntries
+    simp [editNode_set_mt hk.1 kvs hk.2.1 hk.2.2, ER.good, ih hr, setAll]
+
+/-- one `EditNode` step of a flat merge below the entry `k` (whatever the `copied_` flag of the
+reference to `k` is): the entry's map gets the key set; the reference is copied afterwards -/
+theorem editNode_under {k c : Str} (hk : PlainKey k) (hc : PlainKey c) (kvs old : Entries) (cp : Bool) {v : Tree}
+    (h1 : v.isNull = false) (h2 : v.isMap = false) (hx : mapGet kvs k = .map old) :
+    editNode (.map kvs) [{ key := k, copied := cp }] c v true
+      = ER.good (.map (mapSet kvs k (.map (mapSet old c v)))) [{ key := k, copied := true }] := by
+  unfold editNode
+  cases cp <;>
+    simp [isAppending_plain hc, isMerging_plain_flat hc h1 h2, stripOperator_plain hc, typeChecked, hc.ne, getC, readKey,
+      hk.nl, hc.nl, hx, Tree.isNull, typedOk, Tree.isMap, assign, setC, writeKey, Tree.asMap, putBack, ER.good]
+
+theorem mergeEntries_under {k : Str} (hk : PlainKey k) (m : Entries) (hm : Flat m) (kvs old : Entries) (cp : Bool)
+    (hx : mapGet kvs k = .map old) (x : Str × Tree) (hxm : Flat [x]) :
+    mergeEntries (.map kvs) [{ key := k, copied := cp }] (x :: m)
+      = ER.good (.map (mapSet kvs k (.map (setAll old (x :: m))))) [{ key := k, copied := true }] := by
+  induction m generalizing kvs old cp x with
+  | nil =>
+    obtain ⟨c, v⟩ := x
+    have hc := hxm (c, v) (by simp)
+    unfold mergeEntries
+    simp [editNode_under hk hc.1 kvs old cp hc.2.1 hc.2.2 hx, ER.good, mergeEntries, setAll]
+  | cons y rest ih =>
+    obtain ⟨c, v⟩ := x
+    have hc := hxm (c, v) (by simp)
+    have hy : Flat [y] := fun z hz => hm z (by simp at hz; simp [hz])
+    have hr : Flat rest := fun z hz => hm z (by simp [hz])
+    unfold mergeEntries
+    simp only [editNode_under hk hc.1 kvs old cp hc.2.1 hc.2.2 hx, ER.good, if_true]
+    rw [ih hr (mapSet kvs k (.map (mapSet old c v))) (mapSet old c v) true (mapGet_mapSet_same _ _ _) y hy]
+    simp [mapSet_mapSet_same, setAll, ER.good]
+
+/-- every key of a patch literal is one plain map key -/
+def PlainKeys (m : Entries) : Prop := ∀ kv ∈ m, PlainKey kv.1
 
 /-! ### list-index keys -/
 /-- `@next` -/
